@@ -776,11 +776,6 @@ theorem C12_gen_send_history_probe :
     Generated.C12.sendHistoryProbe = some (["wf1", "wf2", "wfb", "wfx", "ctx", "ok"].flatMap fun h =>
       [false, true].flatMap fun ws => [false, true].map fun recv => (h, ws, recv, "same")) := by decide
 
-/-- regenerated from the source (go/ast; package state cannot be probed exhaustively): `internal/stream`
-has no package-level variable that could carry anything from one `Send` / `Expect` to the next
-(error sentinels aside) — the premise `perCall = true` of `C12_send_history_independent` -/
-theorem C12_gen_stream_package_stateless : Generated.C12.streamPackageState = some [] := by decide
-
 end SendHistory
 
 /-! ### Round D: the address comparison behind every header check -/
